@@ -22,6 +22,7 @@ type c07Single struct {
 }
 
 func TestC07(t *testing.T) {
+	allowLongTexts = true
 	r := core.Start(t, "C07")
 	defer r.Finish()
 	r.Rule = "content-form extensions of the nine RFC 5280/6960 kinds on a self-signed CA and optionally a leaf under it (1-6 extensions per entity, generated content: key-usage flag lists with duplicates, SAN lists over mail/dns/ip, ca x pathLen, policies with cps/userNotice qualifiers, OCSP URIs, EKU names and OIDs, AKI hash or explicit id, SKI hash, ocspNoCheck). Oracle: the extension value must equal, byte for byte, the DER encoding built by the harness' own encoder from the abstract content (DER is canonical, so equal bytes <=> an independent decoder reads back exactly the configured content), and must pass the strict DER reader. Exhaustive in both tiers: all 128 key-usage subsets, ca in {true,false,omitted} x pathLen in {omitted,0..255}; out-of-range IP octets must be refused. Non-trivial = content with at least one flag/name/policy/URI/OID or an explicit pathLen/ca; distinct by kind + content."
